@@ -14,7 +14,10 @@ META = {
             "commit-error exit) are re-extracted from handler.go / transaction.go by a go/ast pass on every run and a "
             "generated Lean obligation instantiates the theorems at the extracted configuration. A differential run "
             "posts generated scripts (8 opcodes x failing operation / true, malformed, un-evaluable condition / failing "
-            "COMMIT via a deferred foreign key / pre-check failures / raw transaction control) to the real Handler on "
+            "COMMIT via a deferred foreign key / pre-check failures / raw transaction control / INSERT-UPDATE-DELETE ... "
+            "RETURNING through readrows and sql, also in scripts made of reading opcodes only / a request context that "
+            "is cancelled before the request, at the k-th look at it, or from inside the engine while operation k "
+            "runs) to the real Handler on "
             "fresh SQLite files and compares (status class, applied, lock, handle) with the model; a model-free oracle "
             "compares the tables with the harness' own SQL run on a shadow copy, probes the write lock from an "
             "independent connection and counts the process' descriptors on the database file.",
@@ -109,6 +112,9 @@ def run(ctx):
                 "multi-statement sql, zero-row updates) with 0..n error conditions each; plans: all succeed (possibly with a "
                 "deferred-FK COMMIT failure) / first failure at a random position of kind failing-operation (23 kinds), malformed, "
                 "un-evaluable or true condition / raw COMMIT-ROLLBACK-BEGIN through sql / decode, opcode, permission, DSN failures; "
+                "+ two scenario families with their own streams: request context cancelled at an operation boundary (already "
+                "cancelled / from the k-th observation of the context on / by an SQL function called during operation k), "
+                "and scripts of select-readrows-symbols opcodes only whose readrows statement writes (... RETURNING); "
                 "non-trivial = distinct abstract requests with >= 2 operations and >= 1 write",
         "samples": st.get("samples", []),
         "counters": c,
